@@ -13,33 +13,51 @@ theories/ETDRK/Order.vos theories/ETDRK/Order.vok theories/ETDRK/Order.required_
 theories/ETDRK/Phi.vo theories/ETDRK/Phi.glob theories/ETDRK/Phi.v.beautified theories/ETDRK/Phi.required_vo: theories/ETDRK/Phi.v theories/Base/Scalar.vo
 theories/ETDRK/Phi.vio: theories/ETDRK/Phi.v theories/Base/Scalar.vio
 theories/ETDRK/Phi.vos theories/ETDRK/Phi.vok theories/ETDRK/Phi.required_vos: theories/ETDRK/Phi.v theories/Base/Scalar.vos
+theories/ETDRK/Scaling.vo theories/ETDRK/Scaling.glob theories/ETDRK/Scaling.v.beautified theories/ETDRK/Scaling.required_vo: theories/ETDRK/Scaling.v theories/Base/Scalar.vo theories/Base/FieldLemmas.vo theories/ETDRK/Phi.vo
+theories/ETDRK/Scaling.vio: theories/ETDRK/Scaling.v theories/Base/Scalar.vio theories/Base/FieldLemmas.vio theories/ETDRK/Phi.vio
+theories/ETDRK/Scaling.vos theories/ETDRK/Scaling.vok theories/ETDRK/Scaling.required_vos: theories/ETDRK/Scaling.v theories/Base/Scalar.vos theories/Base/FieldLemmas.vos theories/ETDRK/Phi.vos
 theories/Exec/Codec.vo theories/Exec/Codec.glob theories/Exec/Codec.v.beautified theories/Exec/Codec.required_vo: theories/Exec/Codec.v theories/Base/Scalar.vo theories/Base/FieldLemmas.vo theories/Base/Cplx.vo
 theories/Exec/Codec.vio: theories/Exec/Codec.v theories/Base/Scalar.vio theories/Base/FieldLemmas.vio theories/Base/Cplx.vio
 theories/Exec/Codec.vos theories/Exec/Codec.vok theories/Exec/Codec.required_vos: theories/Exec/Codec.v theories/Base/Scalar.vos theories/Base/FieldLemmas.vos theories/Base/Cplx.vos
-theories/Exec/Entry.vo theories/Exec/Entry.glob theories/Exec/Entry.v.beautified theories/Exec/Entry.required_vo: theories/Exec/Entry.v theories/Base/Scalar.vo theories/Base/FieldLemmas.vo theories/Base/Cplx.vo theories/Exec/Codec.vo theories/Utils/Rollout.vo theories/Gen/ETDRK.vo theories/Gen/Guards.vo
-theories/Exec/Entry.vio: theories/Exec/Entry.v theories/Base/Scalar.vio theories/Base/FieldLemmas.vio theories/Base/Cplx.vio theories/Exec/Codec.vio theories/Utils/Rollout.vio theories/Gen/ETDRK.vio theories/Gen/Guards.vio
-theories/Exec/Entry.vos theories/Exec/Entry.vok theories/Exec/Entry.required_vos: theories/Exec/Entry.v theories/Base/Scalar.vos theories/Base/FieldLemmas.vos theories/Base/Cplx.vos theories/Exec/Codec.vos theories/Utils/Rollout.vos theories/Gen/ETDRK.vos theories/Gen/Guards.vos
+theories/Exec/Entry.vo theories/Exec/Entry.glob theories/Exec/Entry.v.beautified theories/Exec/Entry.required_vo: theories/Exec/Entry.v theories/Base/Scalar.vo theories/Base/FieldLemmas.vo theories/Base/Cplx.vo theories/Exec/Codec.vo theories/Utils/Rollout.vo theories/Gen/ETDRK.vo theories/Gen/Guards.vo theories/Spectral/Symbols.vo theories/Gen/GenericUtils.vo
+theories/Exec/Entry.vio: theories/Exec/Entry.v theories/Base/Scalar.vio theories/Base/FieldLemmas.vio theories/Base/Cplx.vio theories/Exec/Codec.vio theories/Utils/Rollout.vio theories/Gen/ETDRK.vio theories/Gen/Guards.vio theories/Spectral/Symbols.vio theories/Gen/GenericUtils.vio
+theories/Exec/Entry.vos theories/Exec/Entry.vok theories/Exec/Entry.required_vos: theories/Exec/Entry.v theories/Base/Scalar.vos theories/Base/FieldLemmas.vos theories/Base/Cplx.vos theories/Exec/Codec.vos theories/Utils/Rollout.vos theories/Gen/ETDRK.vos theories/Gen/Guards.vos theories/Spectral/Symbols.vos theories/Gen/GenericUtils.vos
 theories/Exec/Extract.vo theories/Exec/Extract.glob theories/Exec/Extract.v.beautified theories/Exec/Extract.required_vo: theories/Exec/Extract.v theories/Exec/Entry.vo
 theories/Exec/Extract.vio: theories/Exec/Extract.v theories/Exec/Entry.vio
 theories/Exec/Extract.vos theories/Exec/Extract.vok theories/Exec/Extract.required_vos: theories/Exec/Extract.v theories/Exec/Entry.vos
 theories/Gen/ETDRK.vo theories/Gen/ETDRK.glob theories/Gen/ETDRK.v.beautified theories/Gen/ETDRK.required_vo: theories/Gen/ETDRK.v theories/Base/Scalar.vo
 theories/Gen/ETDRK.vio: theories/Gen/ETDRK.v theories/Base/Scalar.vio
 theories/Gen/ETDRK.vos theories/Gen/ETDRK.vok theories/Gen/ETDRK.required_vos: theories/Gen/ETDRK.v theories/Base/Scalar.vos
+theories/Gen/GenericUtils.vo theories/Gen/GenericUtils.glob theories/Gen/GenericUtils.v.beautified theories/Gen/GenericUtils.required_vo: theories/Gen/GenericUtils.v theories/Base/Scalar.vo theories/Spectral/Symbols.vo
+theories/Gen/GenericUtils.vio: theories/Gen/GenericUtils.v theories/Base/Scalar.vio theories/Spectral/Symbols.vio
+theories/Gen/GenericUtils.vos theories/Gen/GenericUtils.vok theories/Gen/GenericUtils.required_vos: theories/Gen/GenericUtils.v theories/Base/Scalar.vos theories/Spectral/Symbols.vos
 theories/Gen/Guards.vo theories/Gen/Guards.glob theories/Gen/Guards.v.beautified theories/Gen/Guards.required_vo: theories/Gen/Guards.v 
 theories/Gen/Guards.vio: theories/Gen/Guards.v 
 theories/Gen/Guards.vos theories/Gen/Guards.vok theories/Gen/Guards.required_vos: theories/Gen/Guards.v 
 theories/Props/C02.vo theories/Props/C02.glob theories/Props/C02.v.beautified theories/Props/C02.required_vo: theories/Props/C02.v theories/Base/Scalar.vo theories/Base/FieldLemmas.vo theories/ETDRK/Phi.vo theories/ETDRK/Order.vo theories/Gen/ETDRK.vo theories/Tie/ETDRKTie.vo theories/Base/Cplx.vo
 theories/Props/C02.vio: theories/Props/C02.v theories/Base/Scalar.vio theories/Base/FieldLemmas.vio theories/ETDRK/Phi.vio theories/ETDRK/Order.vio theories/Gen/ETDRK.vio theories/Tie/ETDRKTie.vio theories/Base/Cplx.vio
 theories/Props/C02.vos theories/Props/C02.vok theories/Props/C02.required_vos: theories/Props/C02.v theories/Base/Scalar.vos theories/Base/FieldLemmas.vos theories/ETDRK/Phi.vos theories/ETDRK/Order.vos theories/Gen/ETDRK.vos theories/Tie/ETDRKTie.vos theories/Base/Cplx.vos
+theories/Props/C13.vo theories/Props/C13.glob theories/Props/C13.v.beautified theories/Props/C13.required_vo: theories/Props/C13.v theories/Base/Scalar.vo theories/Base/FieldLemmas.vo theories/Spectral/Symbols.vo theories/Gen/GenericUtils.vo theories/Tie/GenericUtilsTie.vo theories/Steppers/Generic.vo theories/ETDRK/Phi.vo theories/ETDRK/Scaling.vo
+theories/Props/C13.vio: theories/Props/C13.v theories/Base/Scalar.vio theories/Base/FieldLemmas.vio theories/Spectral/Symbols.vio theories/Gen/GenericUtils.vio theories/Tie/GenericUtilsTie.vio theories/Steppers/Generic.vio theories/ETDRK/Phi.vio theories/ETDRK/Scaling.vio
+theories/Props/C13.vos theories/Props/C13.vok theories/Props/C13.required_vos: theories/Props/C13.v theories/Base/Scalar.vos theories/Base/FieldLemmas.vos theories/Spectral/Symbols.vos theories/Gen/GenericUtils.vos theories/Tie/GenericUtilsTie.vos theories/Steppers/Generic.vos theories/ETDRK/Phi.vos theories/ETDRK/Scaling.vos
 theories/Props/C14.vo theories/Props/C14.glob theories/Props/C14.v.beautified theories/Props/C14.required_vo: theories/Props/C14.v theories/Utils/Rollout.vo theories/Utils/RolloutProofs.vo
 theories/Props/C14.vio: theories/Props/C14.v theories/Utils/Rollout.vio theories/Utils/RolloutProofs.vio
 theories/Props/C14.vos theories/Props/C14.vok theories/Props/C14.required_vos: theories/Props/C14.v theories/Utils/Rollout.vos theories/Utils/RolloutProofs.vos
 theories/Props/C20.vo theories/Props/C20.glob theories/Props/C20.v.beautified theories/Props/C20.required_vo: theories/Props/C20.v theories/Gen/Guards.vo
 theories/Props/C20.vio: theories/Props/C20.v theories/Gen/Guards.vio
 theories/Props/C20.vos theories/Props/C20.vok theories/Props/C20.required_vos: theories/Props/C20.v theories/Gen/Guards.vos
+theories/Spectral/Symbols.vo theories/Spectral/Symbols.glob theories/Spectral/Symbols.v.beautified theories/Spectral/Symbols.required_vo: theories/Spectral/Symbols.v theories/Base/Scalar.vo
+theories/Spectral/Symbols.vio: theories/Spectral/Symbols.v theories/Base/Scalar.vio
+theories/Spectral/Symbols.vos theories/Spectral/Symbols.vok theories/Spectral/Symbols.required_vos: theories/Spectral/Symbols.v theories/Base/Scalar.vos
+theories/Steppers/Generic.vo theories/Steppers/Generic.glob theories/Steppers/Generic.v.beautified theories/Steppers/Generic.required_vo: theories/Steppers/Generic.v theories/Base/Scalar.vo theories/Base/FieldLemmas.vo theories/Spectral/Symbols.vo
+theories/Steppers/Generic.vio: theories/Steppers/Generic.v theories/Base/Scalar.vio theories/Base/FieldLemmas.vio theories/Spectral/Symbols.vio
+theories/Steppers/Generic.vos theories/Steppers/Generic.vok theories/Steppers/Generic.required_vos: theories/Steppers/Generic.v theories/Base/Scalar.vos theories/Base/FieldLemmas.vos theories/Spectral/Symbols.vos
 theories/Tie/ETDRKTie.vo theories/Tie/ETDRKTie.glob theories/Tie/ETDRKTie.v.beautified theories/Tie/ETDRKTie.required_vo: theories/Tie/ETDRKTie.v theories/Base/Scalar.vo theories/Base/FieldLemmas.vo theories/ETDRK/Phi.vo theories/Gen/ETDRK.vo
 theories/Tie/ETDRKTie.vio: theories/Tie/ETDRKTie.v theories/Base/Scalar.vio theories/Base/FieldLemmas.vio theories/ETDRK/Phi.vio theories/Gen/ETDRK.vio
 theories/Tie/ETDRKTie.vos theories/Tie/ETDRKTie.vok theories/Tie/ETDRKTie.required_vos: theories/Tie/ETDRKTie.v theories/Base/Scalar.vos theories/Base/FieldLemmas.vos theories/ETDRK/Phi.vos theories/Gen/ETDRK.vos
+theories/Tie/GenericUtilsTie.vo theories/Tie/GenericUtilsTie.glob theories/Tie/GenericUtilsTie.v.beautified theories/Tie/GenericUtilsTie.required_vo: theories/Tie/GenericUtilsTie.v theories/Base/Scalar.vo theories/Base/FieldLemmas.vo theories/Spectral/Symbols.vo theories/Gen/GenericUtils.vo
+theories/Tie/GenericUtilsTie.vio: theories/Tie/GenericUtilsTie.v theories/Base/Scalar.vio theories/Base/FieldLemmas.vio theories/Spectral/Symbols.vio theories/Gen/GenericUtils.vio
+theories/Tie/GenericUtilsTie.vos theories/Tie/GenericUtilsTie.vok theories/Tie/GenericUtilsTie.required_vos: theories/Tie/GenericUtilsTie.v theories/Base/Scalar.vos theories/Base/FieldLemmas.vos theories/Spectral/Symbols.vos theories/Gen/GenericUtils.vos
 theories/Utils/Rollout.vo theories/Utils/Rollout.glob theories/Utils/Rollout.v.beautified theories/Utils/Rollout.required_vo: theories/Utils/Rollout.v 
 theories/Utils/Rollout.vio: theories/Utils/Rollout.v 
 theories/Utils/Rollout.vos theories/Utils/Rollout.vok theories/Utils/Rollout.required_vos: theories/Utils/Rollout.v 
